@@ -72,7 +72,8 @@ func (i *Ignore) IsIncluded(path string, index *Index) bool {
 		}
 	}
 	for _, exFile := range i.paths {
-		exRegexp := regexp.MustCompile(fmt.Sprintf("(^|/)(?:%s)$", exFile))
+		// (?s): a file name may contain a line break, which '.' would not match otherwise
+		exRegexp := regexp.MustCompile(fmt.Sprintf("(?s)(^|/)(?:%s)$", exFile))
 		if exRegexp.MatchString(target) {
 			return true
 		}
